@@ -751,7 +751,12 @@ class TimeoutHandler(PoolThread):
                 dirty = set(k for k in dirty if k in cache)
 
             for i, job in cache.items():
-                ack_time = job._time_accepted
+                ack_time = getattr(job, '_time_accepted', None)
+                if not isinstance(ack_time, (int, float)):
+                    # only apply_async jobs carry time limits: map results
+                    # keep a list of acceptance times and imap iterators
+                    # none at all.
+                    continue
                 soft_timeout = job._soft_timeout
                 if soft_timeout is None:
                     soft_timeout = t_soft
